@@ -44,5 +44,6 @@ ASSUME \A t \in Full : PrintT(ToJson([args |-> t, tier |-> TierOf(t), sample |->
 ASSUME \A t \in SweepTuples : PrintT(ToJson([args |-> t, tier |-> "std", sample |-> FALSE, sweep |-> TRUE]))
 ASSUME \A t \in Sample : PrintT(ToJson([args |-> t, tier |-> TierOf(t), sample |-> TRUE]))
 ASSUME \A p \in Programs : PrintT(ToJson([program |-> p, tier |-> "std"]))
+ASSUME \A p \in ReentrantPrograms : PrintT(ToJson([program |-> p, tier |-> "std"]))
 ASSUME \A p \in FatalPrograms : PrintT(ToJson([program |-> p, tier |-> "fatal"]))
 =============================================================================
